@@ -1193,6 +1193,43 @@ func (w *replWorld) step(ws []string) (out string) {
 			return r
 		}
 		return s
+	case "clientput": // clientput <replica> <key> <value>: a CLIENT write sent to the replica's engine: refused (the node is a replica)
+		n := w.reps[ws[1]]
+		if n == nil || n.eng == nil {
+			return "err not-running"
+		}
+		type cres struct{ err error }
+		ch := make(chan cres, 1)
+		go func() { ch <- cres{n.eng.Put(unhx(ws[2]), unhx(ws[3]))} }()
+		select {
+		case r := <-ch:
+			if r.err == nil {
+				return "clientput accepted"
+			}
+			return "clientput refused"
+		case <-time.After(patience(5 * time.Second)):
+			return "clientput hung"
+		}
+	case "stopmgr": // stopmgr <replica>: replication is stopped (Manager.Stop), the engine stays open and serves clients
+		n := w.reps[ws[1]]
+		if n == nil || n.mgr == nil {
+			return "err not-running"
+		}
+		w.noteApply(n)
+		if n.stopMono != nil {
+			close(n.stopMono)
+			n.stopMono = nil
+		}
+		done := make(chan struct{})
+		go func() { n.mgr.Stop(); close(done) }()
+		select {
+		case <-done:
+		case <-time.After(patience(5 * time.Second)):
+			n.mgr = nil
+			return "hung stop"
+		}
+		n.mgr = nil
+		return "ok"
 	case "txrefused": // txrefused <key> <size>: a transaction the primary's log refuses (one value beyond a log record): nothing is written
 		sz, _ := strconv.Atoi(ws[2])
 		err, blocked, _ := replGuarded(2*replWatchdog, func() error {
@@ -1707,7 +1744,7 @@ func replGenTx(g *gen, w *bufio.Writer, m int) {
 	fmt.Fprintln(w, strings.Join(parts, " "))
 }
 
-var replClassesQuick = []string{"after", "before", "during", "restart", "outage", "refusedtx", "flaps", "stopstorm", "stopapply", "preflush", "two", "tx1", "prod", "txmulti", "rotate", "onelate", "cleancatchup", "cleanpush", "sustained", "txcut", "bigvalues", "applyfail", "bigvalues"}
+var replClassesQuick = []string{"after", "before", "during", "restart", "outage", "refusedtx", "flaps", "stopwrite", "stopstorm", "stopapply", "preflush", "two", "tx1", "prod", "txmulti", "rotate", "onelate", "cleancatchup", "cleanpush", "sustained", "txcut", "bigvalues", "applyfail", "bigvalues"}
 var replClassesThorough = append(append([]string{}, replClassesQuick...), "after", "before", "during", "restart", "txmulti", "rotatemem", "txsplit", "mixed")
 
 func genRepl(g *gen, n int, tier string, w *bufio.Writer) {
@@ -1855,6 +1892,18 @@ func genReplCase(g *gen, w *bufio.Writer, class string, big bool) {
 		fmt.Fprintln(w, "await a")
 		fmt.Fprintf(w, "outage %d\n", g.pick(50, 300))
 		fmt.Fprintln(w, "await a")
+	case "stopwrite": // a replica refuses client writes while it replicates, and still after its replication was stopped (it remains a
+		// replica: what was replicated to it must not diverge through a client)
+		hdr("any", "")
+		fmt.Fprintln(w, "join a")
+		replGenMixedOps(g, w, 8+g.intn(20), true)
+		fmt.Fprintln(w, "await a")
+		k, v := g.replSmallKV()
+		fmt.Fprintln(w, join("clientput", "a", k, v))
+		fmt.Fprintln(w, "stopmgr a")
+		k, v = g.replSmallKV()
+		fmt.Fprintln(w, join("clientput", "a", k, v))
+		fmt.Fprintln(w, join("clientput", "a", hx([]byte("client-key")), hx([]byte("c"))))
 	case "refusedtx": // the primary refuses a commit (a value beyond one log record) in the middle of the history: later writes replicate
 		hdr("any", "")
 		if g.chance(1, 2) {
